@@ -53,6 +53,7 @@ class Interp:
             raise Indeterminate('top module %s not defined' % top)
         self.cont = []       # continuous processes: ('assign', scope, lhs, rhs, lhs_scope) ; ('comb', scope, always)
         self.seq = []        # (scope, always)
+        self.implicit_nets = []
         self.inits = []
         self._tcache = {}
         self.top = self._build(design.mods[top], '', None, {})
@@ -77,6 +78,14 @@ class Interp:
                 sc.params[pn] = v
             else:
                 raise Indeterminate('parameter %s of %s has no value' % (pn, mi.name))
+        # IEEE 1364 6.10: an undeclared identifier used as a plain port connection is an implicit scalar net of the enclosing module
+        # (C03 still reports it as undeclared; here it only has to behave the way a simulator makes it behave)
+        from .elab import Sym
+        for inst in mi.instances:
+            for pn, e in inst.conns:
+                if isinstance(e, P.Id) and e.name not in mi.syms and e.name not in mi.params:
+                    mi.syms[e.name] = Sym(e.name, 'wire', 1)
+                    self.implicit_nets.append('%s.%s' % (mi.name, e.name))
         for n, s in mi.syms.items():
             if s.kind in ('wire', 'reg', 'integer'):
                 if s.arr is not None:
@@ -124,29 +133,73 @@ class Interp:
                     raise Indeterminate('inout port')
         return sc
 
+    def _net_driven(self, mi, n):
+        """Is net n of module mi driven by anything inside mi (assign, procedural write, output of an instance)?"""
+        for a in mi.assigns:
+            t = []
+            self._lv_names(a.lhs, t)
+            if n in t:
+                return True
+        for al in mi.always:
+            r, w = set(), []
+            self._stmt_rw(al.body, r, w)
+            if n in w:
+                return True
+        for inst in mi.instances:
+            target = self.design.mods.get(inst.module)
+            for pn, e in inst.conns:
+                if e is None:
+                    continue
+                ps = target.syms.get(pn) if target is not None else None
+                if ps is not None and ps.dir == 'input':
+                    continue
+                t = []
+                self.design._ids(e, t)
+                if n in t:
+                    return True
+        return False
+
     def _find_clocks(self):
-        """Every posedge block must be clocked by a signal that is the top-level clock input passed down by name."""
+        """Every posedge block must be clocked by a signal that is the top-level clock input passed down by name.
+        A clock that ends in a net nothing drives (an implicit net, or an input port the parent leaves unconnected) is a determinate
+        outcome, not an indeterminate one: that block never sees an edge (self.dead_seq)."""
         top_clocks = set()
-        for sc, al, cname in self.seq:
+        self.dead_seq = set()
+        self.dead_clocks = []
+        for k, (sc, al, cname) in enumerate(self.seq):
             s = sc
             n = cname
-            while s.parent is not None:
+            dead = False
+            while True:
+                sym = s.mi.syms.get(n)
+                if sym is None or sym.dir != 'input':
+                    if (sym is None or sym.kind == 'wire') and not self._net_driven(s.mi, n):
+                        dead = True
+                        break
+                    if s.parent is None:
+                        raise Indeterminate('clock %s is not a top-level input (derived clock)' % n)
+                    raise Indeterminate('clock %s of %s is not an input port (derived clock)' % (n, s.path))
+                if s.parent is None:
+                    break
                 # find the binding of input port n in the parent
                 inst = s.parent.mi.syms[s.path.split('.')[-1]].decl
                 bound = None
+                connected = False
                 for pn, e in inst.conns:
                     if pn == n:
                         bound = e
+                        connected = True
+                if not connected or bound is None:
+                    dead = True          # unconnected input port: z, never an edge
+                    break
                 if not isinstance(bound, P.Id):
                     raise Indeterminate('clock of %s is not a plain net of the parent' % s.path)
-                sym = s.mi.syms.get(n)
-                if sym is None or sym.dir != 'input':
-                    raise Indeterminate('clock %s of %s is not an input port (derived clock)' % (n, s.path))
                 n = bound.name
                 s = s.parent
-            sym = s.mi.syms.get(n)
-            if sym is None or sym.dir != 'input':
-                raise Indeterminate('clock %s is not a top-level input (derived clock)' % n)
+            if dead:
+                self.dead_seq.add(k)
+                self.dead_clocks.append('%s.%s' % (s.path or s.mi.name, n))
+                continue
             top_clocks.add(n)
         if len(top_clocks) > 1:
             raise Indeterminate('more than one clock: %s' % sorted(top_clocks))
@@ -692,7 +745,9 @@ class Interp:
 
     def posedge(self):
         nb = []
-        for sc, al, cname in self.seq:
+        for k, (sc, al, cname) in enumerate(self.seq):
+            if k in self.dead_seq:
+                continue
             self.exec_stmt(sc, al.body, nb)
         self._apply_nb(nb)
         self.settle()
